@@ -7,6 +7,8 @@ pub mod c02;
 pub mod c03;
 pub mod c04;
 pub mod c05;
+pub mod c06;
+pub mod c07;
 pub mod c10;
 pub mod c12;
 pub mod c14;
@@ -19,6 +21,8 @@ pub fn run(id: &str, tier: Tier) -> i32 {
         "C03" => { let r = Run::new("C03", tier); c03::run(&r); r }
         "C04" => { let r = Run::new("C04", tier); start_watchdog("C04"); c04::run(&r); r }
         "C05" => { let r = Run::new("C05", tier); start_watchdog("C05"); c05::run(&r); r }
+        "C06" => { let r = Run::new("C06", tier); c06::run(&r); r }
+        "C07" => { let r = Run::new("C07", tier); c07::run(&r); r }
         "C10" => { let r = Run::new("C10", tier); c10::run(&r); r }
         "C12" => { let r = Run::new("C12", tier); start_watchdog("C12"); c12::run(&r); r }
         "C14" => { let r = Run::new("C14", tier); c14::run(&r); r }
@@ -52,6 +56,8 @@ pub fn replay_case(id: &str, op: &str, case: &serde_json::Value) -> Result<(), S
         (_, "enum_parse_total") | (_, "parse_error_grid") => c04::replay_case(case),
         (_, "lexical_parse_total") | (_, "fold_total") => c05::replay_case(case),
         (_, "parse_wf") | (_, "fold_wf") | (_, "text_fold_wf") => c12::replay_case(case),
+        (_, "eq_pair") => c06::replay_case(case),
+        (_, "hash_pair") => c07::replay_case(case),
         (_, "meaning") => c10::replay_case(case),
         (_, "pipelines_agree") | (_, "vocab_table") => c03::replay_case(case),
         _ => Err(format!("no replayer for property {id} op {op:?}")),
